@@ -158,7 +158,8 @@ def finish(prop, tier, seed, reports, t0, explanation, assumptions, level="other
             continue
         printed.add(base)
         cfgs = sorted(kk.rsplit(" @", 1)[1] for kk in knownhits if kk.rsplit(" @", 1)[0] == base and " @" in kk)
-        print(f"KNOWN-FINDING: property={prop} {base}" + (f" @{','.join(cfgs)}" if cfgs else "") + f" :: {what}")
+        shown = base[len(prop) + 1:] if base.startswith(prop + " ") else base
+        print(f"KNOWN-FINDING: property={prop} {shown}" + (f" @{','.join(cfgs)}" if cfgs else "") + f" :: {what}")
     rc = 0
     replay_paths = []
     if new:
